@@ -3,5 +3,5 @@
 cd "$(dirname "$0")/.."
 echo "== own mutants"; /venv/bin/python tools/selftest.py --jobs 4 --shards 4 --budget 150 2>&1 | grep -v "^          C" 
 echo "== independent seeds"
-ls -d seeded/*/ | xargs -P 4 -I{} bash -c 'd={}; n=$(basename $d); pid=$(echo ${n:0:3} | tr a-z A-Z); /venv/bin/python tools/seeded_eval.py $pid $PWD/$d --seeds ${SEED_SEEDS:-0,1,2} 2>&1 | grep "^RESULT" | sed "s/^/$n /"'
+ls -d seeded/*/ | xargs -P 4 -I{} bash -c 'd={}; n=$(basename $d); pid=$(echo ${n:0:3} | tr a-z A-Z); /venv/bin/python tools/seeded_eval.py $pid $PWD/$d ${SEED_FLAGS:-} --seeds ${SEED_SEEDS:-0,1,2} 2>&1 | grep "^RESULT" | sed "s/^/$n /"'
 echo "== quick sweep"; tools/sweep.sh quick "$@"
